@@ -2,8 +2,13 @@ package main
 
 import (
 	"fmt"
+	"go/ast"
+	"go/token"
+	"go/types"
 	"regexp"
 	"strings"
+
+	"golang.org/x/tools/go/types/typeutil"
 )
 
 // ---- C04: deviation is detected, blamed correctly, never yields a bad output ----
@@ -21,31 +26,33 @@ var peerIDFields = map[string]string{
 	".copartyID":          "two-party sub-protocols (RVOLE, OT): the single counterparty",
 }
 
-func checkBlame(r *Run, scope Scope, minSites int) {
-	r.Rule("C04.B1", "blame tag type: every WithTag(IdentifiableAbortPartyIDTag, v) has v of static type sharing.ID (GetMaliciousIdentities recovers culprits by type assertion; any other type is silently lost)")
-	r.Rule("C04.B2", "blame tag is sender-derived: v is the key of a range over a party set / message map, a sender parameter, or a frozen peer-id field; never an own-identity source")
+func checkBlame(r *Run, scope Scope, minSites int) { checkBlameP(r, "C04", scope, minSites) }
+
+func checkBlameP(r *Run, pfx string, scope Scope, minSites int) {
+	r.Rule(pfx+".B1", "blame tag type: every WithTag(IdentifiableAbortPartyIDTag, v) has v of static type sharing.ID (GetMaliciousIdentities recovers culprits by type assertion; any other type is silently lost)")
+	r.Rule(pfx+".B2", "blame tag is sender-derived: v is the key of a range over a party set / message map, a sender parameter, or a frozen peer-id field; never an own-identity source")
 	sites := r.TagSites(scope)
 	for _, ts := range sites {
 		key := FuncKey(ts.Fn.Obj) + " :: " + ts.Shape
 		pos := r.Prog.RelPos(ts.Call.Pos())
-		r.Check(isSharingID(ts.Type), "C04.B1", key, pos, "tag value has type "+shortType(ts.Type))
+		r.Check(isSharingID(ts.Type), pfx+".B1", key, pos, "tag value has type "+shortType(ts.Type))
 		sh := ts.Shape
 		switch {
 		case ownIDShape.MatchString(sh):
-			r.Fail("C04.B2", key, pos, "blame tag value `"+sh+"` is derived from the party's own identity")
+			r.Fail(pfx+".B2", key, pos, "blame tag value `"+sh+"` is derived from the party's own identity")
 		case strings.HasPrefix(sh, "key(") || strings.HasPrefix(sh, "val("):
-			r.Pass("C04.B2", key, pos, "range variable over "+sh)
+			r.Pass(pfx+".B2", key, pos, "range variable over "+sh)
 		case peerIDFields[sh] != "":
-			r.UseExempt("C04.B2 "+sh, peerIDFields[sh])
-			r.Pass("C04.B2", key, pos, "frozen peer-id field")
+			r.UseExempt(pfx+".B2 "+sh, peerIDFields[sh])
+			r.Pass(pfx+".B2", key, pos, "frozen peer-id field")
 		case regexp.MustCompile(`^\$\d$`).MatchString(sh):
-			r.Pass("C04.B2", key, pos, "sender parameter of the enclosing function")
+			r.Pass(pfx+".B2", key, pos, "sender parameter of the enclosing function")
 		default:
-			r.Fail("C04.B2", key, pos, "blame tag value `"+sh+"` is not recognisably derived from the sender of the message being checked")
+			r.Fail(pfx+".B2", key, pos, "blame tag value `"+sh+"` is not recognisably derived from the sender of the message being checked")
 		}
 	}
-	r.RequireCount("C04.B1", "tag sites", len(sites), minSites)
-	r.Analysed["C04.B tag sites"] = len(sites)
+	r.RequireCount(pfx+".B1", "tag sites", len(sites), minSites)
+	r.Analysed[pfx+".B tag sites"] = len(sites)
 	_ = fmt.Sprint
 }
 
@@ -55,3 +62,67 @@ func checkBytesCoverage(r *Run, rule string, scope Scope, min int) {
 
 // (type.method.field) -> reason; each confirmed by reading
 var bytesExempt = map[string]string{}
+
+// checkSentinelErrors (B5): errs-go sentinel errors (errs.New) copy on With*, every other error value
+// mutates in place. A package-level error variable that is not a plain errs.New sentinel is a shared
+// mutable object: tagging it with a culprit overwrites the blame of every earlier use (and races).
+func checkSentinelErrors(r *Run, rule string) {
+	r.Rule(rule, "blame objects are fresh: every package-level error variable is initialised directly by errs.New (a copy-on-With sentinel); a variable initialised through With*/Wrap is a shared mutable error whose blame tag would be overwritten by later failures")
+	n := 0
+	for _, pk := range r.Prog.Pkgs {
+		info := pk.TypesInfo
+		for _, f := range pk.Syntax {
+			if strings.HasSuffix(r.Prog.Fset.Position(f.Pos()).Filename, "_test.go") {
+				continue
+			}
+			for _, d := range f.Decls {
+				gd, ok := d.(*ast.GenDecl)
+				if !ok || gd.Tok != token.VAR {
+					continue
+				}
+				for _, sp := range gd.Specs {
+					vs := sp.(*ast.ValueSpec)
+					for i, nm := range vs.Names {
+						obj, _ := info.Defs[nm].(*types.Var)
+						if obj == nil || i >= len(vs.Values) {
+							continue
+						}
+						t := obj.Type()
+						if !(isErrorType(t) || types.Implements(t, errorIface)) {
+							continue
+						}
+						n++
+						call, isCall := ast.Unparen(vs.Values[i]).(*ast.CallExpr)
+						ok := false
+						if isCall {
+							if fn, _ := typeutil.Callee(info, call).(*types.Func); fn != nil && fn.Pkg() != nil {
+								pp := fn.Pkg().Path()
+								if (strings.HasSuffix(pp, "errs-go/errs") && fn.Name() == "New") || (pp == "errors" && fn.Name() == "New") {
+									ok = true
+								}
+							}
+						}
+						if !isCall {
+							// alias of another package-level error variable (itself checked where it is declared)
+							var id *ast.Ident
+							switch x := ast.Unparen(vs.Values[i]).(type) {
+							case *ast.Ident:
+								id = x
+							case *ast.SelectorExpr:
+								id = x.Sel
+							}
+							if id != nil {
+								if v, isVar := info.Uses[id].(*types.Var); isVar && v.Pkg() != nil && v.Parent() == v.Pkg().Scope() {
+									ok = true
+								}
+							}
+						}
+						key := strings.TrimPrefix(pk.PkgPath, modPath+"/") + "." + nm.Name
+						r.Check(ok, rule, key, r.Prog.RelPos(nm.Pos()), "package-level error `"+nm.Name+"` must be a plain errs.New sentinel")
+					}
+				}
+			}
+		}
+	}
+	r.RequireCount(rule, "package-level error variables", n, 150)
+}
